@@ -295,7 +295,14 @@ func scenC18(k *K) {
 	// ---- every public operation once on the closed object ----
 	post := map[string]func(ctx context.Context) error{}
 	st := T.p
-	post["write"] = func(ctx context.Context) error { _, err := c09Write(ctx, st, "after-close"); return err }
+	var postWriteAcked []string
+	post["write"] = func(ctx context.Context) error {
+		op, err := c09Write(ctx, st, "after-close")
+		if err == nil && op != nil {
+			postWriteAcked = append(postWriteAcked, op.GetEntry().GetHash().String())
+		}
+		return err
+	}
 	post["load"] = func(ctx context.Context) error { return st.Load(ctx, -1) }
 	post["load-from-snapshot"] = func(ctx context.Context) error { return st.LoadFromSnapshot(ctx) }
 	qHeads := CopyHeads(T.q.OpLog().Heads().Slice())
@@ -426,6 +433,11 @@ func scenC18(k *K) {
 			k.Failf("C18/drop-left-data", "after Drop the database reopened with %d entries: %v", len(have), LogNames(rst))
 		}
 	} else {
+		for _, h := range postWriteAcked {
+			if !have[h] {
+				k.Failf("C18/acked-after-close-lost/"+actName, "a write on the closed store returned success but its entry is gone after reopen + Load(-1)")
+			}
+		}
 		for h := range T.acked {
 			if !have[h] {
 				k.Failf("C18/acked-lost/"+actName, "after %s at moment %s, reopen + Load(-1) lacks an acknowledged entry; have %d of %d", actName, momentName, len(have), len(T.acked))
